@@ -518,7 +518,7 @@ def check_enum(cx, fn, rep, facts):
         if e is not None and e['k'] == 'Match' and es(e['expr']) == 'self':
             from ..emptiness import nonempty_evidence, empty_evidence, is_emptiness_atom
             rest_ = [a for a in atoms if not is_emptiness_atom(a) and a[0] != 'data']
-            if not (not rest_ and nonempty_evidence(atoms)):
+            if not (not rest_ and nonempty_evidence(atoms, S.cx, S.fw)):
                 S.bad('SUM-DEBUG', 'enum-match-guard', '`match self` emitted under %s' % [atom_s(a)[:60] for a in atoms], b)
                 ok = False
             msite = (b, e)
@@ -526,7 +526,7 @@ def check_enum(cx, fn, rep, facts):
             h = stringify_hole(e['args'][0])
             okn = h and isinstance(S.hole_term(b, h), tuple) and S.hole_term(b, h)[0] == 'some_of' and name_term_ok(S, S.hole_term(b, h)[1], ('field', ('param', 'ast'), 'ident'))
             from ..emptiness import empty_evidence
-            okg = empty_evidence(atoms) and any(a[0] == 'some' and a[2] is True for a in atoms)
+            okg = empty_evidence(atoms, S.cx, S.fw) and any(a[0] == 'some' and a[2] is True for a in atoms)
             if not (okn and okg):
                 S.bad('SUM-DEBUG', 'enum-empty', 'an empty enum must print its shown name (and be refused without one)', b)
                 ok = False
